@@ -7,7 +7,16 @@ func propC03(c *Ctx) propInfo {
 	c.floor("E3a.hygiene", 230)
 	c.floor("E3a.codec-pair", 20)
 	c.intFamily(true, false, true)
+	c.lossyConversions(excC03Lossy, "tlb", "wallet", "ton", "tl")
+	c.floor("E2.R-lossyconv", 4)
 	return propInfo{
 		explanation: "Static structural clauses of C03 (DESIGN.md §4 C03): tag hygiene over every struct type of the TL-B universe (tags parse under the codec's grammar, sum types fully tagged and prefix-free in first-match order, field kinds supported in both directions, no unexported field in a reflectively coded struct, custom codecs two-sided), hand-written Marshal/Unmarshal pairs emit and consume the same event sequences, generated integer family widths agree on both sides, no read result or error is dropped in codecs. Decides these necessary conditions, not value equality after a round trip.",
 	}
+}
+
+var excC03Lossy = map[string]string{
+	"tl.Marshal uint64->uint32 of reflect.Value.Uint()":  "inside case reflect.Uint32: Value.Uint() of a uint32 fits",
+	"tl.Marshal int64->int32 of reflect.Value.Int()":    "inside case reflect.Int32: Value.Int() of an int32 fits",
+	"tl.EncodeLength int->uint32 of (i<<8)":             "TL byte strings are limited to 2^24-1 bytes by the 3-byte length; callers pass len() of in-memory data",
+	"tl.encodeVector int->uint32 of reflect.Value.Len()": "element count of an in-memory slice; a slice with 2^32 elements cannot be encoded anyway",
 }
